@@ -106,3 +106,35 @@ Example shadowing_in_nested_loop_accepted :
   chk_program true true 50 {| p_stmts := []; p_ret := BFor q |} = COk /\
   fst (run_body 50 {| p_stmts := []; p_ret := BFor q |} (init_world [] false None)) = Ok (VArr [VInt 2]).
 Proof. split; reflexivity. Qed.
+
+(* ---- WAITFOR EVENT name IN source [OPTIONS o] [FILTER f] [TIMEOUT t]: the
+   pseudo variable CURRENT exists in the filter only *)
+From Ferret Require Import WaitforScope Proofs.WaitforScopeProofs.
+
+Theorem waitfor_scoping_exact : forall vis w,
+  chk_waitfor vis w = true <->
+  (forall x, In x (wf_name w ++ wf_src w ++ wf_opts w ++ wf_timeout w) -> mem x vis = true) /\
+  (forall fs, wf_filter w = Some fs -> forall x, In x fs -> mem x (current_var :: vis) = true).
+Proof. exact chk_waitfor_spec. Qed.
+Print Assumptions waitfor_scoping_exact.
+
+Theorem waitfor_current_outside_filter_rejected : forall vis w,
+  mem current_var vis = false ->
+  mem current_var (wf_name w ++ wf_src w ++ wf_opts w ++ wf_timeout w) = true ->
+  chk_waitfor vis w = false.
+Proof. exact current_outside_rejected. Qed.
+Print Assumptions waitfor_current_outside_filter_rejected.
+
+Theorem waitfor_filter_sees_current : forall vis w fs,
+  outside_ok vis w = true -> wf_filter w = Some fs ->
+  (forall x, In x fs -> bytes_eqb x current_var = true \/ mem x vis = true) ->
+  chk_waitfor vis w = true.
+Proof. exact filter_sees_current. Qed.
+Print Assumptions waitfor_filter_sees_current.
+
+Example waitfor_scoping_instances :
+  let w f t := {| wf_name := [bs "ev"]; wf_src := [bs "obs"]; wf_opts := []; wf_filter := f; wf_timeout := t |} in
+  chk_waitfor [bs "ev"; bs "obs"] (w (Some [current_var; bs "ev"]) []) = true /\
+  chk_waitfor [bs "ev"; bs "obs"] (w (Some [current_var]) [current_var]) = false /\
+  chk_waitfor [bs "ev"; bs "obs"; current_var] (w None [current_var]) = true.
+Proof. repeat split; reflexivity. Qed.
